@@ -84,7 +84,12 @@ extern "C" int LLVMFuzzerTestOneInput(const uint8_t *data, size_t size)
 		g_cnt[std::string("follow_") + c2.cls]++;
 		failed = failed || c2.failed;
 	}
-	if (failed) {
+	if (failed && known_state_unnumbered(I)) {
+		g_cnt["skipped_known_unnumbered_solutions_survive_reload"]++;
+		g_I = 0; g_inlib++; delete I; g_inlib--;
+		g_I = new FI;
+		g_fresh = false;
+	} else if (failed) {
 		reload_and_probe(I, "failed database load / follow-up", h);
 	} else {
 		load_small(I, "after a successful load");
